@@ -74,6 +74,7 @@ class _Runner:
         self.GFA, self.fp_run, self.ctx = GFA, fp_run, ctx
         self.d = ctx.dir("c14")
         self.n_graphs = 0
+        self.n_walks = 0
 
     def _count(self, section, gkey, w):
         ctx = self.ctx
@@ -112,6 +113,8 @@ class _Runner:
             p = path_str(w)
             exp = expected(og, st, w)
             exp_all.append((p, exp))
+            if exp and len(w) > 1:
+                self.n_walks += 1
             for how, gg in (("file", g), ("api", ga if len(w) <= api_len else None)):
                 if gg is None:
                     continue
@@ -155,8 +158,6 @@ class _Runner:
         single = [ctx.rng.choice(c) for c in (walks, nonwalks) if c][:singles]
         for fasta in (False, True):
             for to_stdout in (False, True):
-                if to_stdout and not fasta:
-                    continue
                 jobs = [("file", pf, exp_all)] + [("single", p, [(p, e)]) for p, e in single]
                 for kind, arg, exp in jobs:
                     section = "find_path(%s%s%s)" % (kind, ",fasta" if fasta else "", ",stdout" if to_stdout else "")
@@ -259,7 +260,7 @@ def _run(ctx):
     quick = ctx.quick
     L = 3 if quick else 4
     budget = 70 if quick else 780
-    ctx.bound("step sequences: ALL sequences of 1..%d oriented steps ('>'/'<' x node) over the nodes of each graph, walk or not; node ids known "
+    ctx.bound("step sequences: ALL sequences of 1..%d oriented steps (1..4 on graphs of <= 2 nodes) ('>'/'<' x node) over the nodes of each graph, walk or not; node ids known "
               "to the graph; node sequences of length 1..4 over ACGT and N (upper case), mostly pairwise distinct and not reverse-palindromic" % L)
 
     # 1. one node: every subset of the 3 possible self-links, both declarations
@@ -269,12 +270,12 @@ def _run(ctx):
             R.graph(list(zip(IDS[:1], pick_seqs(rng, 1))), decls(sub, variant), L + 1, api_len=L + 1, cli=True)
 
     # 2. two nodes: every subset of the 10 possible links (4 orientation combinations between the nodes + 3 self-links each)
-    ctx.bound("2 nodes: all 1,024 subsets of the 10 distinct links (4 orientation combinations a-b, 3 self-links per node); declaration from "
+    ctx.bound("2 nodes: all 1,024 subsets of the 10 distinct links (4 orientation combinations a-b, 3 self-links per node), step sequences up to length 4; declaration from "
               "either end: %s; find_path front end on every %s graph" % ("one of {as is, flipped, alternating} per graph" if quick else "all of {as is, flipped, alternating}", "8th" if quick else "2nd"))
     all2 = gl.all_side_links(IDS[:2])
     for gi, sub in enumerate(_subsets(all2)):
         for variant in ([gi % 3] if quick else [0, 1, 2]):
-            R.graph(list(zip(IDS[:2], pick_seqs(rng, 2))), decls(sub, variant), L, api_len=3, cli=(gi % (8 if quick else 2) == 0 and variant == gi % 3))
+            R.graph(list(zip(IDS[:2], pick_seqs(rng, 2))), decls(sub, variant), 4, api_len=3, cli=(gi % (8 if quick else 2) == 0 and variant == gi % 3))
 
     # 3. three and four nodes: every graph with <= 2 links (<= 3 links on 3 nodes in thorough), alternating declarations
     k3 = 2 if quick else 3
@@ -290,7 +291,7 @@ def _run(ctx):
                     break
 
     # 4. random denser graphs on 3..4 nodes incl. parallel links (duplicate line, same link from the other end, other overlap)
-    n_rand = 40 if quick else 700
+    n_rand = 150 if quick else 700
     ctx.bound("%d random graphs on 3-4 nodes: each of the 21/36 distinct links present with probability 0.1/0.25/0.5/0.8; parallel links: "
               "duplicated L line, the same link declared from the other end, the same link with overlap 1M" % n_rand)
     for i in range(n_rand):
@@ -323,7 +324,7 @@ def _run(ctx):
             "(and, for short sequences, built through add_node/add_edge) and compared with the step relation / speller of rtc.gen; the "
             "reversed walk is compared with the reverse complement; gaftools.cli.find_path.run is fed the whole list as a file (and single "
             "paths), plain and FASTA, to a file and to stdout. A case is one (graph, step sequence, build method) or one find_path run; "
-            "non-trivial when the sequence has >= 2 steps" % (R.n_graphs, L))
+            "non-trivial when the sequence has >= 2 steps (%d of the multi-step sequences were walks)" % (R.n_graphs, L, R.n_walks))
 
 
 def _subsets(items):
